@@ -13,6 +13,7 @@ NOTE_PARTIAL = ("the theorems in coq/fs/%s.v are about named mechanisms of the l
                 "proved lemmas + trace-exact correspondence + spec oracle on the implementation")
 
 PROOF_LEVEL = {
+    "C11": "C11_history_model is a theorem about the layer-B model: in any history run with ONE device fault armed at any device-call index, the calls before the one that hits it are unaffected, and that call returns Err (never Ok / fabricated / Panic / OutOfFuel), keeps lock and handle tables (CloseFile consumes its handle), leaves a crash-sound medium with unique names and every non-targeted file intact, and - for calls that never write - a state of the invariant so that the retry is a fault-free call; every handle can be closed afterwards. Proved per operation (step_fault, 26 operations) from lockstep_step (the armed run agrees with the fault-free run up to the armed device call). Several faults per history and arbitrary calls after a fault are covered at run time only: this check injects a fault at every device-call index of every script and random multi-fault sequences, and judges the implementation with the python oracle (error reported, not wedged, retry answers, no duplicate names, bystanders intact)",
     "C01": "C01_history_model is a theorem about the layer-B model: for any history of API calls (all 26 operations interleaved, any number of files, every outcome) an executable byte-array spec predicts every read/length/offset/eof/seek/flush/close result and ends with the API's view of every file, position by position (writes splice, truncation empties, append starts at the end, one key per write = isolation); step_content proved per operation; D23 (clip at 4 GiB - 1) is encoded in the spec as the crate behaves and recorded as a finding. The run-time oracle replays the byte-array model on the implementation's results",
     "C02": "C02_history_model / C02_flushed_stays_model / C02_untouched_history_model are theorems about the layer-B model: what a fresh mount of the raw medium shows (disk_view, a function of the raw disk) at the slot of a flushed/closed file is exactly the API's view at the flush - name, attribute, creation time, modification time = rounded clock of the last write, bytes - until a later call modifies that file; untouched files and untouched raw directory slots are unchanged through any history. Recorded findings: D24 (zero creation-date fields re-encoded) and D29 (0xE5 names). The run-time oracle re-reads the implementation's medium with an independent FAT reader",
     "C10": "C10_history is a theorem about the layer-B model: in any history of API calls, the medium after every prefix of the block-write sequence of every call (read off the device log; writes atomic and ordered) satisfies the crash invariant crash_inv (tree over the raw disk, unique names, clean tails, dot entries, chains sound and pairwise disjoint, sub-directories with initialised clusters; residue = lost chains and one stale size), whatever the free clusters held; step_crash proved for all 26 operations and outcomes. The extracted sound decider crash_inv_fast and the independent python checker both run on the implementation's crashed media. Not covered by a theorem: that the mount call itself succeeds on the crashed medium (region theorem: MBR/boot sector unchanged)",
